@@ -673,6 +673,13 @@ def wrapped(a, b): pass
 @deco
 @deco
 def wrapped2(a, b): pass
+def nothing(): return 0
+class NoSelf:
+    # a method written without an explicit self: *args receives the instance
+    def m(*args, **kwargs): return nothing(*args, **kwargs)
+    def k(*args, **kwargs): return g(*args, **kwargs)
+def kwonly(*, q): return q
+def kwstar(a, b, **kw): return g(a, **kw)
 exec_ns = {}
 exec("def nosource(*args, **kwargs): return 1", exec_ns)
 nosource = exec_ns["nosource"]
@@ -680,7 +687,12 @@ OBJECTS = [lam, lam2, coro, gen, agen, walrus, matcher, comp, dcomp, starred, gl
            Body.c, two, incompatible, part, part2, recursive, mutual_a, unresolved, notcallable, builtin, cfunc, deleted, onearg,
            functools.partial(onearg, g), functools.partial(onearg, 3), wrapped, wrapped2, nosource, functools.partial(g, 1, c=3),
            print, len, dict, int, object, type, functools.partial(print), str.join, [].append, Body.__init__, Body().__init__,
-           specifiers.forwards_to_function, modifiers.kwoargs, wrappers.decorator, sigtools.signature]
+           specifiers.forwards_to_function, modifiers.kwoargs, wrappers.decorator, sigtools.signature,
+           NoSelf().m, NoSelf().k, NoSelf.m,
+           # partial objects that can never be called: inspect.signature raises ValueError, so must sigtools
+           functools.partial(g, 1, 2, 3), functools.partial(g, 1, a=2), functools.partial(kwonly, 1),
+           functools.partial(onearg, g, 1, 2, 3), functools.partial(functools.partial(g, 1), 2, 3),
+           functools.partial(kwstar, 0, 1, 2), functools.partial(kwstar, 0, a=1)]
 '''
 
 
